@@ -160,6 +160,13 @@ static void compare_all(Tree& t, const Model& m, uint8_t probe)
     if (ub != t.end() && up < m.n) CHECK(KLT(probe, IT_KEY(ub)) && IT_KEY(ub) == m.k[up], "upper_bound() points to the first entry greater than key");
     if (ub != t.begin() && up > 0) { Tree::iterator p_ = ub; --p_; CHECK(!KLT(probe, IT_KEY(p_)) && IT_KEY(p_) == m.k[up - 1], "the entry before upper_bound() is not greater than key"); }
     CHECK((ub == t.begin()) == (up == 0), "upper_bound() is begin() exactly when no entry is <= key");
+    { // the const overloads answer like the non-const ones
+      const Tree& ct = t;
+      CHECK(ct.find(probe) == Tree::const_iterator(f), "const find() equals find()");
+      CHECK(ct.lower_bound(probe) == Tree::const_iterator(lb), "const lower_bound() equals lower_bound()");
+      CHECK(ct.upper_bound(probe) == Tree::const_iterator(ub), "const upper_bound() equals upper_bound()");
+      std::pair<Tree::const_iterator, Tree::const_iterator> cer = ct.equal_range(probe);
+      CHECK(cer.first == Tree::const_iterator(lb) && cer.second == Tree::const_iterator(ub), "const equal_range() equals [lower_bound, upper_bound)"); }
     std::pair<Tree::iterator, Tree::iterator> er = t.equal_range(probe);
     CHECK(er.first == lb && er.second == ub, "equal_range() equals [lower_bound, upper_bound)");
 }
